@@ -249,6 +249,23 @@ def gen_schedblock(rng):
     sc = gen_sched(rng, pre_choices=(0, 0, 1, 2, 3))
     if sc["N"] == 1:
         sc = gen_sched(rng, pre_choices=(0, 0, 1, 2, 3))
+    if rng.random() < 0.4:
+        # three nodes: two sources (one of them scheduled) feeding a small third node
+        base = gen_tandem(rng, N=3, K=1)
+        base["prio"] = [0]
+        base["syscap"] = INF
+        for n, nd in enumerate(base["nodes"]):
+            if nd["c"] >= INF or nd["c"] == 0:
+                nd["c"] = 1
+        base["nodes"][0]["kind"] = "sched"
+        base["nodes"][0]["c"] = 0
+        base["nodes"][0]["sched"] = rand_sched(rng, rng.choice([0, 1, 2, 3]))
+        base["arrS"] = [[samples(rng, 1, 3, 2)], [samples(rng, 1, 3, 2)], [[]][0:1]]
+        base["arrS"][2] = [[]]
+        base["svcS"] = [[samples(rng, 1, 4, 2)], [samples(rng, 1, 4, 2)], [samples(rng, 2, 7, 2)]]
+        base["route"] = [tm([[0, 0, 4], [0, 0, 4], [0, 0, 0]])]
+        base["T"] = rng.randint(15, 40)
+        sc = base
     N = sc["N"]
     for n, nd in enumerate(sc["nodes"]):
         nd["qcap"] = rng.choice([0, 1, 2, INF])
@@ -482,6 +499,68 @@ def gen_fault(rng):
     return sc
 
 
+def gen_mix(rng):
+    """feature-combination sweep: every feature of the scenario language may meet every other one
+    (except 'reroute' pre-emption and arrivals at date 0).  Open findings taint some of these traces."""
+    N = rng.choice([1, 2, 2, 3, 3])
+    K = rng.choice([1, 2, 2])
+    sc = gen_tandem(rng, N=N, K=K)
+    sc["syscap"] = rng.choice([INF, INF, INF, 4, 6])
+    sc["prio"] = rng.choice([[0] * K, list(range(K))])
+    multi = len(set(sc["prio"])) > 1
+    for n, nd in enumerate(sc["nodes"]):
+        r = rng.random()
+        nd["qcap"] = rng.choice([0, 1, 2, INF, INF])
+        nd["disc"] = rng.choice(["FIFO", "FIFO", "LIFO", "SIRO"])
+        if r < 0.25:
+            nd["kind"] = "sched"
+            nd["c"] = 0
+            nd["sched"] = rand_sched(rng, rng.choice([0, 0, 1, 2, 3]))
+            if rng.random() < 0.2:
+                nd["spf"] = rng.choice([1, 2])
+        elif r < 0.4:
+            m = rng.randint(1, 3)
+            slots, t = [], 0
+            for _ in range(m):
+                t += rng.randint(1, 5)
+                slots.append(t)
+            cap = rng.random() < 0.6
+            nd["kind"] = "slot"
+            nd["c"] = 0
+            nd["slot"] = {"slots": slots, "sizes": [rng.choice([0, 1, 2, 3]) for _ in range(m)], "cap": cap,
+                          "pre": (rng.choice([0, 1, 2, 3]) if cap else 0), "off": rng.choice([0, 0, 1])}
+        else:
+            if nd["c"] >= INF:
+                nd["qcap"] = INF
+            elif nd["c"] == 0:
+                nd["c"] = 1
+            if multi and nd["c"] < INF and rng.random() < 0.3:
+                nd["pp"] = rng.choice([1, 2, 3])
+    if rng.random() < 0.35:
+        sc["patS"] = [[(samples(rng, 0, 5, 2) if (sc["nodes"][n].get("kind", "std") in ("std", "sched") and
+                                                   sc["nodes"][n]["c"] < INF and rng.random() < 0.7) else [])
+                       for _ in range(K)] for n in range(N)]
+    if K == 2 and rng.random() < 0.3:
+        for nd in sc["nodes"]:
+            if rng.random() < 0.7:
+                x, y = rng.choice([0, 2, 4]), rng.choice([0, 2, 4])
+                nd["ccm"] = [[4 - x, x], [y, 4 - y]]
+    if K == 2 and N == 1 and rng.random() < 0.2:
+        sc["cct"] = [[[], samples(rng, 1, 5, 2)], [[], []]]
+    if rng.random() < 0.25:
+        for nd in sc["nodes"]:
+            nd["bk"] = [[rng.choice([0, 1, 2, 4]) for _ in range(rng.randint(1, 3))] if rng.random() < 0.5 else [] for _ in range(K)]
+    if rng.random() < 0.3:
+        sc["tracker"] = rng.choice(["system", "node", "naive", "nodeclass", "matrix"])
+    for n in range(N):
+        for k in range(K):
+            sc["svcS"][n][k] = samples(rng, 1, 6, 3)
+            if sc["arrS"][n][k]:
+                sc["arrS"][n][k] = samples(rng, 1, 4, 2)
+    sc["T"] = rng.randint(15, 45)
+    return sc
+
+
 def gen_stopcount(rng):
     base = rng.choice([gen_core1, gen_tandem, gen_prio, gen_renege, gen_cls])
     sc = base(rng)
@@ -516,6 +595,7 @@ def gen_stopcount(rng):
 FAMILIES = {
     "stopcount": gen_stopcount,
     "trk": gen_trk,
+    "mix": gen_mix,
     "fault": gen_fault,
     "ps": gen_ps,
     "psfifo": gen_psfifo,
